@@ -162,10 +162,10 @@ def handle (s : St) (ts : List String) : St × Option String :=
   | "content.oracle.notimmutable" :: idx :: rest =>
     (s, do some (toString (oracleNotImmutable (← parseInt idx) (← parseSeen rest))))
   | ["crawl.routes"] => (s, some (toString routeTemplates.length))
-  | "crawl.oracle.csp" :: method :: tmpl :: rest =>
+  | "crawl.oracle.csp" :: _method :: tmpl :: rest =>
     (s, do
       let t ← Driver.parseHexText tmpl
-      let known := t == "<fallback>" || routeTemplates.any (fun p => p.2 == t && (p.1 == method || method == "OTHER"))
+      let known := t == "<fallback>" || routeTemplates.any (fun p => p.2 == t)
       if !known then some "unknown-route" else
       some (toString ((field rest "csp").map (fun c => c != "-") == some true)))
   | _ => (s, none)
